@@ -95,6 +95,9 @@ Definition spec_step (dg : content -> string) (before : list (list (string * cop
     (* the request body is what arrived (d, fewer bytes than announced): the same clause *)
     negb (ok2 (o_code a)) ||
     (String.eqb (dg d) h && intact_somewhere dg h (o_after a))
+  | PutCancel h d =>
+    negb (ok2 (o_code a)) ||
+    (String.eqb (dg d) h && intact_somewhere dg h (o_after a))
   end.
 
 Fixpoint spec_steps (dg : content -> string) (before : list (list (string * copy))) (ops : list op) (os : list obs) : bool :=
@@ -104,8 +107,20 @@ Fixpoint spec_steps (dg : content -> string) (before : list (list (string * copy
   | _, _ => false
   end.
 
+(* "once it is acknowledged an intact copy is retrievable": no request of this vocabulary (GET, HEAD, PUT
+   -- complete, cut short, abandoned by its client) takes an intact copy away: a block name that has an
+   intact copy somewhere before a request has one after it *)
+Definition keep_step (dg : content -> string) (names : list string) (before after : list (list (string * copy))) : bool :=
+  forallb (fun h => negb (intact_somewhere dg h before) || intact_somewhere dg h after) names.
+Fixpoint keep_steps (dg : content -> string) (names : list string) (before : list (list (string * copy))) (os : list obs) : bool :=
+  match os with
+  | [] => true
+  | a :: r => keep_step dg names before (o_after a) && keep_steps dg names (o_after a) r
+  end.
+
 Definition spec_b (c : case) : bool :=
-  spec_steps (digest c) (map (listing_of (c_names c)) (c_vols c)) (c_ops c) (c_obs c).
+  spec_steps (digest c) (map (listing_of (c_names c)) (c_vols c)) (c_ops c) (c_obs c) &&
+  keep_steps (digest c) (c_names c) (map (listing_of (c_names c)) (c_vols c)) (c_obs c).
 
 (* ------------------------------------------------------------------ *)
 (* model output = observed output (status class, body, Content-Length, listings, no stray files) *)
